@@ -465,6 +465,27 @@ class PCBO(PUBO):
             for k, v in args[0]._constraints.items():
                 self._constraints.setdefault(k, []).extend(v)
 
+    def __imul__(self, other):
+        """__imul__.
+
+        Define the ``*=`` operator. Multiplying by a dictionary clears and
+        then rebuilds ``self`` (see ``DictArithmetic.__imul__``), so we make
+        sure that the recorded constraints and the ancilla counter survive.
+
+        Parameters
+        ----------
+        other : dict or number.
+
+        Returns
+        -------
+        self : PCBO object.
+
+        """
+        constraints, ancilla = self._constraints, self._ancilla
+        super(self.__class__, self).__imul__(other)
+        self._constraints, self._ancilla = constraints, ancilla
+        return self
+
     @property
     def constraints(self):
         """constraints.
